@@ -274,4 +274,23 @@ theorem foldl_inv (ops : List (COp κ)) : ∀ (ca : Cache κ) (T : Name → Opti
 theorem empty_inv : Inv (Cache.empty : Cache κ) (fun _ => none) :=
   ⟨by intro k p h; simp [Cache.empty] at h, by intro name cs h; simp at h⟩
 
+theorem viewFrom_congr (statics : Nat → Ctx) (f f' : Nat → SCtx LCfg → Ctx) (cs : List (Option (SCtx LCfg))) :
+    ∀ n, (∀ i c, cs[i]? = some (some c) → f (n + i) c = f' (n + i) c) → viewFrom statics f cs n = viewFrom statics f' cs n := by
+  induction cs with
+  | nil => intro n _; rfl
+  | cons c0 r ih =>
+    intro n h
+    have hr : viewFrom statics f r (n + 1) = viewFrom statics f' r (n + 1) := by
+      apply ih
+      intro i c hc
+      have := h (i + 1) c (by simpa using hc)
+      have e : n + (i + 1) = n + 1 + i := by omega
+      rwa [e] at this
+    cases c0 with
+    | none => simp only [viewFrom, hr]
+    | some c =>
+      have h0 := h 0 c (by simp)
+      simp only [Nat.add_zero] at h0
+      simp only [viewFrom, hr, h0]
+
 end MosnVerif.Lemmas.TlsShare
